@@ -19,6 +19,12 @@ import traceback
 
 HERE = os.path.dirname(os.path.abspath(__file__))
 sys.path.insert(0, HERE)
+# The implementation under test is /repo's working tree (the /venv install is an editable install
+# of /repo).  AQV_REPO redirects to a scratch worktree (used only to try seeded changes without
+# touching /repo); child interpreters inherit it through PYTHONPATH.
+_REPO = os.environ.get("AQV_REPO", "/repo")
+sys.path.insert(0, _REPO)
+os.environ["PYTHONPATH"] = _REPO + os.pathsep + os.environ.get("PYTHONPATH", "")
 
 import warnings  # noqa: E402
 warnings.filterwarnings("ignore")
